@@ -248,8 +248,14 @@ pub const MSG_LITERALS: [&str; 4] = [msg_lit0!(), msg_lit1!(), msg_lit2!(), msg_
 struct Pieces<'a>(&'a [String]);
 impl<'a> fmt::Display for Pieces<'a> {
     fn fmt(&self, f: &mut fmt::Formatter<'_>) -> fmt::Result {
+        use fmt::Write;
         for p in self.0 {
-            f.write_str(p)?;
+            // a piece of one character arrives the way a `char` argument (or a fill character) does
+            let mut cs = p.chars();
+            match (cs.next(), cs.next()) {
+                (Some(c), None) => f.write_char(c)?,
+                _ => f.write_str(p)?,
+            }
         }
         Ok(())
     }
